@@ -43,7 +43,44 @@ def finish(ctx):
     ctx.notes["max_steps_per_input_byte"] = round(ctx.max_steps_per_byte, 1)
 
 
+SYS_DOCS = {
+    "gfa1": ["H\tVN:Z:1.0\txx:i:1", "S\tA\t*\txx:i:1", "S\tB\tACGT", "L\tA\t+\tB\t-\t2M\tID:Z:l1",
+             "C\tA\t+\tB\t-\t1\t2M", "P\tp\tA+,B-\t2M"],
+    "gfa2": ["H\tVN:Z:2.0", "S\tA\t10\t*\txx:i:1", "S\tB\t10\t*", "E\te1\tA+\tB-\t5\t10$\t5\t10$\t2M",
+             "F\tA\tr+\t0\t5\t0\t5\t*", "G\tg1\tA+\tB-\t5\t*", "O\to1\tA+ e1+ B-", "U\tu1\tA B e1",
+             "X\tabc\tdef\txx:i:1"],
+}
+SYS_ATOMS = ["", "*", "+", "-", "0", "-1", "1$", "$", "A", "b", "zz", "A+", "B-", "Ax", "A+,B-", "A+ B-", "A+,zz-", "1M",
+             "1,2", "xx:i:1", "xx:J:{", " ", "\x00", "\u00e9", "1e5", "x" * 300, "e1", "e1+", "u1", "p", "o1-", "3X",
+             "10", "11$", "A B zz", "A+ zz+"]
+
+
+def sys_cases():
+    """every field of every record type replaced, one at a time, by every atom: the document is
+    built at each validation level and then swept (DESIGN C07, systematic stratum)."""
+    out = []
+    for ver, doc in SYS_DOCS.items():
+        for li, line in enumerate(doc):
+            f = line.split("\t")
+            for fi in range(len(f)):
+                for atom in SYS_ATOMS:
+                    if f[fi] == atom:
+                        continue
+                    g = list(f)
+                    g[fi] = atom
+                    lines = list(doc)
+                    lines[li] = "\t".join(g)
+                    for lvl in (0, 1, 3):
+                        out.append({"k": "sys", "lines": lines, "vlevel": lvl, "version": ver if (li + fi) % 2 else None,
+                                    "dialect": "standard", "entry": "list" if (li + fi + lvl) % 3 else "add",
+                                    "slot": "%s/%s.%d" % (ver, f[0], fi), "seed": 0})
+    return out
+
+
 def cases(rng, tier, shard, nshards):
+    for i, c in enumerate(sys_cases()):
+        if i % nshards == shard:
+            yield c
     while True:
         r = rng.random()
         cfg = {"vlevel": rng.choice([0, 0, 1, 1, 2, 3]), "version": rng.choice([None, None, "gfa1", "gfa2"]),
@@ -184,6 +221,39 @@ def poke_gfa(ctx, rng, g, nbytes):
                              g.custom_records, g.headers, g.segment_names, g.edge_names, g.path_names))
 
 
+def sweep_gfa(ctx, g, nb):
+    """deterministic sweep over a Gfa built from a hostile document: every public read on every
+    line, the validations, the writers, then the removal of every line."""
+    guarded(ctx, "gfa.names", nb, lambda: list(g.names))
+    guarded(ctx, "str(gfa)", nb, str, g)
+    guarded(ctx, "gfa.validate", nb, g.validate)
+    guarded(ctx, "gfa.collections", nb,
+            lambda: (g.segments, g.edges, g.paths, g.sets, g.gaps, g.fragments, g.comments, g.custom_records,
+                     g.headers, g.segment_names, g.edge_names, g.path_names, g.external_names))
+    r = guarded(ctx, "gfa.lines", nb, lambda: list(g.lines))
+    lines = r.value if (r is not None and r.ok) else []
+    for l in lines:
+        guarded(ctx, "str(line)", nb, str, l)
+        guarded(ctx, "line.validate", nb, l.validate)
+        fr = guarded(ctx, "line.tagnames", nb, lambda: list(l.positional_fieldnames) + list(l.tagnames))
+        for f in (fr.value if (fr is not None and fr.ok) else []):
+            guarded(ctx, "line.get", nb, l.get, f)
+            guarded(ctx, "line.field_to_s", nb, l.field_to_s, f, True)
+            guarded(ctx, "line.validate_field", nb, l.validate_field, f)
+        rtr = call(ctx, "line.record_type", lambda: l.record_type)
+        rt = rtr.value if rtr.ok else None
+        if rt in ("O", "P"):
+            guarded(ctx, "group.captured_path", nb, lambda: l.captured_path)
+        elif rt == "U":
+            guarded(ctx, "group.induced_set", nb, lambda: l.induced_set)
+    # (graph operations and queries which take no string from the caller are outside the claim,
+    #  DESIGN 9.5)
+    for l in lines:
+        if call(ctx, "line.record_type", lambda: l.record_type).value != "H":
+            guarded(ctx, "gfa.rm(line)", nb, g.rm, l)
+    guarded(ctx, "str(gfa)", nb, str, g)
+
+
 def run(case, ctx):
     import random
     k = case["k"]
@@ -230,7 +300,12 @@ def run(case, ctx):
                     guarded(ctx, "gfa.add_line", nb, g.add_line, l)
                 guarded(ctx, "gfa.process_line_queue", nb, g.process_line_queue)
         if r is not None and r.ok:
-            poke_gfa(ctx, rng, r.value, nb)
+            if k == "sys":
+                ctx.count("systematic_documents")
+                ctx.add("systematic_slots", case["slot"])
+                sweep_gfa(ctx, r.value, nb)
+            else:
+                poke_gfa(ctx, rng, r.value, nb)
     new_sites = len(ctx.probes.raise_sites) - before_sites
     if new_sites > 0:
         ctx.nontriv(case)
